@@ -217,7 +217,10 @@ func VfC17_Kinds() {
 	src := "!nm = !{!" + d + "}\n!" + d + " = " + hC17Kinds[k].text + "\n" +
 		"!4 = !{}\n!5 = !{!8}\n" +
 		"!6 = distinct !DIGlobalVariable(name: \"gg\", scope: !8, file: !9, line: 2, type: !8, isLocal: true, isDefinition: true)\n" +
-		"!7 = !{!" + d + "}\n!8 = !{}\n!9 = !DIFile(filename: \"a.c\", directory: \"/\")\n"
+		"!7 = !{!" + d + "}\n!8 = !{}\n!9 = !DIFile(filename: \"a.c\", directory: \"/\")\n" +
+		// a reference from a call argument (`metadata !N`), next to an inline node
+		"declare void @llvm.dbg.value(metadata, metadata, metadata)\n" +
+		"define void @user() {\n\tcall void @llvm.dbg.value(metadata i32 0, metadata !" + d + ", metadata !DIExpression())\n\tret void\n}\n"
 	m, err := ParseString("t.ll", src)
 	vfReach("C17.kinds")
 	vfObserveStr("src", src)
@@ -228,7 +231,9 @@ func VfC17_Kinds() {
 	vfAssert("C17.kinds.seven-defs", len(m.MetadataDefs) == 7)
 	vfAssert("C17.kinds.parsed", hC17KindOK(m, id, hC17Kinds[k].prefix))
 	vfAssert("C17.kinds.field-references-are-the-definitions", hC17FieldRefs(m, id, hC17Kinds[k].text))
+	vfAssert("C17.kinds.call-argument-is-the-definition", hC17ArgRef(m, id))
 	y := m.String()
+	vfAssert("C17.kinds.call-argument-prints-the-id", hContainsStr(y, "metadata !"+d+","))
 	m2, err2 := ParseString("t.ll", y)
 	vfAssert("C17.kinds.print-accepted", err2 == nil)
 	if err2 != nil {
@@ -237,6 +242,7 @@ func VfC17_Kinds() {
 	vfAssert("C17.kinds.print-fixpoint", m2.String() == y)
 	vfAssert("C17.kinds.reparsed", hC17KindOK(m2, id, hC17Kinds[k].prefix))
 	vfAssert("C17.kinds.reparsed-field-references", hC17FieldRefs(m2, id, hC17Kinds[k].text))
+	vfAssert("C17.kinds.reparsed-call-argument", hC17ArgRef(m2, id))
 	// renumber from scratch: the node is first in the list of definitions
 	// (smallest ID), so it becomes !0 and the carrier nodes !1..!6
 	for _, def := range m2.MetadataDefs {
@@ -298,4 +304,31 @@ func VfC17_RepeatedAttachments() {
 	if err2 == nil {
 		vfAssert("C17.repeated.print-keeps-all", vfAnd(len(m2.Globals[0].Metadata) == 4, vfAnd(len(m2.Funcs[0].Metadata) == 2, len(m2.Funcs[1].Metadata) == 2)))
 	}
+}
+
+// hC17ArgRef: the second argument of the call in @user is a metadata value
+// wrapping the very node that the module lists as definition !id.
+func hC17ArgRef(m *ir.Module, id int64) bool {
+	def := hC17Def(m, id)
+	if def == nil || len(m.Funcs) < 2 {
+		return false
+	}
+	call, ok := m.Funcs[1].Blocks[0].Insts[0].(*ir.InstCall)
+	if !ok || len(call.Args) != 3 {
+		return false
+	}
+	mv, ok := call.Args[1].(*metadata.Value)
+	if !ok {
+		return false
+	}
+	return mv.Value == metadata.Metadata(def)
+}
+
+func hContainsStr(s, sub string) bool {
+	for i := 0; i+len(sub) <= len(s); i++ {
+		if s[i:i+len(sub)] == sub {
+			return true
+		}
+	}
+	return false
 }
